@@ -96,7 +96,38 @@ pub const TYPED: &[&str] = &[
     "Marker", "Remove", "Na", "Number", "Date", "Time", "DateTime", "Ref", "Uri", "Symbol", "Str", "Coord", "XStr", "Dict", "Grid", "List",
 ];
 
+fn exit_decode_zinc(doc: &[u8]) {
+    let mut cur = std::io::Cursor::new(doc);
+    let _ = zinc_value_over(&mut cur);
+    let mut cur = std::io::Cursor::new(doc);
+    let _ = zinc_rows_over(&mut cur, doc.len() + 16, |_, _| {});
+}
+
+fn exit_decode_json(doc: &[u8]) {
+    let _ = serde_json::from_slice::<Value>(doc);
+}
+
+/// scenario `*-thread-exit`: the document is decoded from the destructor of a thread-local while
+/// its thread winds down
+fn run_thread_exit(case: &Case) -> Outcome {
+    let mut out = Outcome::default();
+    let doc = case.doc_bytes();
+    let f: DecodeFn = if case.scenario.starts_with("json") { exit_decode_json } else { exit_decode_zinc };
+    let guard_first = case.extra.get("guard_first").and_then(|v| v.as_bool()).unwrap_or(true);
+    let r = decode_during_thread_exit(f, &doc, guard_first);
+    out.nontrivial = true;
+    out.probe("fault:decode-from-a-thread-local-destructor-at-thread-exit", 1);
+    if let Some((msg, loc)) = r {
+        out.violate(format!("C03 panic at thread exit {} {}", loc_class(&loc), msg_class(&msg)), format!("decoding from a thread-local destructor while the thread exits panicked at {loc}: {msg}"));
+    }
+    out.fingerprint = mix(&[fnv1a(case.scenario.as_bytes()), guard_first as u64, out.violation.is_some() as u64]);
+    out
+}
+
 pub fn run_case(case: &Case) -> Outcome {
+    if case.scenario.ends_with("-thread-exit") {
+        return run_thread_exit(case);
+    }
     let doc = case.doc_bytes();
     let len = doc.len();
     let mut out = Outcome::default();
@@ -149,7 +180,8 @@ pub fn run_case(case: &Case) -> Outcome {
             other => Decoded::Err(format!("VERIF: unknown scenario {other}")),
         }
     });
-    let fired = stats.eintr_fired.get() + stats.err_fired.get() + stats.trunc_fired.get();
+    let fired = stats.eintr_fired.get() + stats.err_fired.get() + stats.trunc_fired.get() + stats.reentered.get();
+    out.probe("fault:reader-re-enters-the-decoders", stats.reentered.get());
     out.steps = stats.calls.get() + ticks;
     out.probe("fault:eintr", stats.eintr_fired.get());
     out.probe("fault:io-error", stats.err_fired.get());
@@ -291,6 +323,13 @@ pub fn enumerate_single_faults(prop: &str, base: &[u8], kind: &str, grid: bool, 
                 c.read.chunk = if off % 2 == 0 { Chunk::Full } else { Chunk::Fixed(5) };
                 cases.push(c);
             }
+        }
+        // the reader re-enters the decoders (same thread) before read call k, for every k
+        for call in 0..=(n as u64).min(400) {
+            let mut c = mk(sink, base, format!("reenter@call{call}"));
+            c.read.reenter = vec![call];
+            c.read.chunk = Chunk::One;
+            cases.push(c);
         }
         // EINTR at every read call
         for call in 0..=(n as u64 + 1) {
@@ -443,6 +482,12 @@ pub fn random_read_plan(rng: &mut Rng, len: usize, tokens: &[(usize, usize)], ha
     if rng.chance(1, 8) {
         // stall: a long run of Interrupted
         plan.eintr.push((place(rng) as u64, 16 + rng.below(48) as u32));
+    }
+    if rng.chance(1, 12) {
+        // the reader decodes something of its own, on this thread, before some of its answers
+        for _ in 0..rng.range(1, 4) {
+            plan.reenter.push(rng.below(len as u64 + 2));
+        }
     }
     if rng.chance(1, 10) {
         // storm: single interruptions at every k-th read call over a long stretch (a counter of
@@ -599,6 +644,8 @@ impl Engine for C03 {
             units.push(UnitSpec { id, name: format!("fields:{part}"), isolated: false, exhaustive: true });
             id += 1;
         }
+        units.push(UnitSpec { id, name: "thread-exit".into(), isolated: false, exhaustive: true });
+        id += 1;
         // two-fault enumeration for the short base documents
         let max2 = self.max_len_two_faults();
         for (name, _, _, text) in self.base_docs() {
@@ -618,6 +665,22 @@ impl Engine for C03 {
         }
         if unit.name == "ladder" {
             return Box::new(self.ladder().into_iter());
+        }
+        if unit.name == "thread-exit" {
+            // every hand-picked document decoded from a thread-local destructor of an exiting thread,
+            // with the guard created before / after the thread's first ordinary decode
+            let mut cases = Vec::new();
+            for (kind, docs) in [("zinc", corpus::ZINC_HAND), ("json", corpus::JSON_HAND)] {
+                for d in docs.iter() {
+                    for guard_first in [true, false] {
+                        let mut c = Case::new("C03", &format!("{kind}-thread-exit"), d.as_bytes());
+                        c.extra.insert("guard_first".into(), guard_first.into());
+                        c.origin = format!("thread-exit {kind} guard_first={guard_first}");
+                        cases.push(c);
+                    }
+                }
+            }
+            return Box::new(cases.into_iter());
         }
         if let Some(part) = unit.name.strip_prefix("fields:") {
             // every value of the two-digit fields of date / time / timestamp literals, as a scalar,
